@@ -591,12 +591,22 @@ def fem_material():
     return models.SmallStrainElasticity(emodel, alpha=ALPHA)
 
 
-def fem_run(desc):
-    """full system solve; returns per-tube (axial strain, axial stress) at the last step"""
+def fem_run(desc, keep=None):
+    """full system solve; returns per-tube (axial strain, axial stress) at the last step.
+    keep: a dict carried between calls; when given, the SAME receiver, tube, material, tube-solver and
+    system-solver objects are solved again with desc's connection options set in place (an option study)"""
     from srlife import system, structural
-    model, tubes = fem_model(desc)
-    ssolver = structural.PythonTubeSolver(verbose=False)
-    system.SpringSystemSolver(verbose=False).solve(model, fem_material(), ssolver, nthreads=1)
+    if keep is not None and "model" in keep:
+        model, tubes, mat, ssolver, sys_solver = keep["model"], keep["tubes"], keep["mat"], keep["ssolver"], keep["sys"]
+        model.stiffness = mk_opt(desc["recv"])
+        for panel, (opt, n) in zip(model.panels.values(), desc["panels"]):
+            panel.stiffness = mk_opt(opt)
+    else:
+        model, tubes = fem_model(desc)
+        mat, ssolver, sys_solver = fem_material(), structural.PythonTubeSolver(verbose=False), system.SpringSystemSolver(verbose=False)
+        if keep is not None:
+            keep.update(model=model, tubes=tubes, mat=mat, ssolver=ssolver, sys=sys_solver)
+    sys_solver.solve(model, mat, ssolver, nthreads=1)
     res = []
     for t in tubes:
         ezz = t.quadrature_results["strain_zz"][-1]
@@ -605,10 +615,10 @@ def fem_run(desc):
     return res
 
 
-def fem_predicate(desc):
+def fem_predicate(desc, keep=None):
     bad = []
     try:
-        res = fem_run(desc)
+        res = fem_run(desc, keep)
     except Exception as e:
         return ["full system solve with FEM tubes does not complete: %s: %s" % (type(e).__name__, str(e)[:100])], None
     tid = 0
@@ -808,6 +818,26 @@ def run(ctx):
         ctx.case(("F", letters, tuple(n for _, n in fd["panels"])), nontrivial=True, tag="fem/" + letters[0])
         if bad:
             fem_bad.append((fd, bad))
+    # option study: ONE receiver (same tube, material and solver objects) re-solved with the connection options
+    # changed in place; every re-solve must be as exact as the first solve of a fresh model
+    n_sweeps = 2 if ctx.quick() else 8
+    for k in range(n_sweeps):
+        nts = [rng.randint(1, 2) for _ in range(2)]
+        dT = [float(rng.uniform(50.0, 300.0)) for _ in range(sum(nts))]
+        keep = {}
+        seq = [rng.choice(["rrr", "srs", "ssr", "drs", "rsd", "sss", "rdr"]) for _ in range(4)]
+        hist = []
+        for j, letters in enumerate(seq):
+            fd = {"recv": enc_of(letters[0], rng), "panels": [[enc_of(l, rng), n] for l, n in zip(letters[1:], nts)],
+                  "dT": dT, "times": [0.0, 1.0]}
+            fd["history"] = list(hist)       # the earlier solves of the same receiver object, for the replay
+            hist.append({k_: v_ for k_, v_ in fd.items() if k_ != "history"})
+            fem_descs.append(fd)
+            bad, _ = fem_predicate(fd, keep)
+            ctx.case(("F-resolve", k, j, letters, tuple(nts)), nontrivial=True, tag="fem-resolve/%d" % j)
+            if bad:
+                fem_bad.append((fd, ["re-solve %d of one receiver object (options set in place, sequence %s): %s" % (j, seq, b) for b in bad]))
+                break
     ctx.obligation("property predicate on SpringSystemSolver.solve with 1-D elastic FEM tubes (completes; "
                    "disconnected = free growth; rigid = equal strain)", not fem_bad,
                    "%d of %d violate; first: %s" % (len(fem_bad), len(fem_descs), [(describe(p[0]), p[1][:2]) for p in fem_bad[:1]]))
@@ -856,7 +886,10 @@ def replay(obj):
     d = r["desc"]
     print("input:", describe(d))
     if r.get("suite") == "fem":
-        bad, res = fem_predicate(d)
+        keep = {} if d.get("history") else None
+        for hprev in d.get("history", []):
+            print("earlier solve of the same receiver object:", describe(hprev), "->", fem_predicate(hprev, keep)[0] or "ok")
+        bad, res = fem_predicate(d, keep)
         print("per-tube (axial strain, axial stress, spread):", res)
     else:
         print("tube stiffness:", d["k"], "thermal growth:", d["dth"])
